@@ -45,6 +45,19 @@ def make_clt(rs, tree, scope):
     with np.errstate(divide="ignore"):
         c = BinaryCLT(list(scope), tree=list(tree), params=np.log(params).tolist())
     c._verif_probs = params
+    if rs.rand() < 0.3:
+        # a second-hand tree: converted and queried once under OTHER tables, which are then replaced (in place, or by assigning
+        # a new array as learners do) by the tables of this case
+        final = np.array(c.params, copy=True)
+        other = final.copy()
+        for i in range(n):
+            if i != r:
+                other[i] = final[i][::-1]
+        with np.errstate(all="ignore"):
+            if rs.rand() < 0.5:
+                c.params[...] = other; c.to_pc(); c.log_likelihood(np.full((2, n), np.nan, dtype=np.float32)); c.params[...] = final
+            else:
+                c.params = other; c.to_pc(); c.log_likelihood(np.full((2, n), np.nan, dtype=np.float32)); c.params = final
     return c
 
 
